@@ -347,10 +347,21 @@ def judge_map(ref, out):
         return None, "unjudged: assignment does not range over the query facts"
     bits = tuple(bool(strat[a]) for a in qatoms)
     pj = ref["joint"].get(bits, 0)
+    # diagnosis: map.py maximises the sum over the query facts of P(fact has its chosen value | e) and reports
+    # that sum; a deviation that this objective explains exactly is keyed by the cause, not by the program
+    marg = [sum(p for k, p in ref["joint"].items() if k[i]) / ref["pe"] for i in range(len(qatoms))]
+
+    def f(k):
+        return sum(m if b else 1 - m for m, b in zip(marg, k))
+
+    explained = (score is not None and abs(score - float(f(bits))) <= TOL and pj > 0
+                 and all(f(k) <= f(bits) + TOL for k in ref["joint"]))
+    tag = " [explained by the sum-of-marginals objective]" if explained else ""
     if float(best - pj) > 1e-12:
-        return "map-not-most-probable", "%s has P(state | e) = %.10g; %s" % (got, float(pj / ref["pe"]), exp)
+        return "map-not-most-probable", "%s has P(state | e) = %.10g; %s%s" % (got, float(pj / ref["pe"]), exp, tag)
     if score is None or min(abs(score - float(pj / ref["pe"])), abs(score - float(pj))) > TOL:
-        return "map-wrong-score", "%s; P(state | e) = %.10g, P(state, e) = %.10g" % (got, float(pj / ref["pe"]), float(pj))
+        return "map-wrong-score", "%s; P(state | e) = %.10g, P(state, e) = %.10g%s" % (
+            got, float(pj / ref["pe"]), float(pj), tag)
     return None, ""
 
 
@@ -393,7 +404,7 @@ class C21(Prop):
                    "MAP with P(evidence)=0 and programs with a cycle through negation are unjudged"]
     families = {"quick": [("FTD.2.1", 48), ("FTD.1.3", 64), ("FTD.1.2", 24), ("FTD.1.1", 8),
                           ("MAP:F1.2", 48), ("MAP:F2.3", 16), ("MAP:F1.1", 4), ("MAP:F2.2", 4)],
-                "thorough": [("FTD.3.2", 1024), ("FTD.2.3", 512), ("FTD.2.2", 128), ("FTD.3.1", 96), ("FTD.2.1", 48),
+                "thorough": [("FTD.2.3", 512), ("FTD.2.2", 128), ("FTD.3.1", 96), ("FTD.2.1", 48),
                              ("FTD.1.3", 64), ("FTD.1.2", 24), ("FTD.1.1", 8),
                              ("MAP:F1.2", 96), ("MAP:F2.4", 64), ("MAP:F1.3s", 32), ("MAP:F2.3", 16), ("MAP:F1.1", 4),
                              ("MAP:F2.2", 4)]}
@@ -453,13 +464,22 @@ class C21(Prop):
                 case = {"kind": "dt", "program": decision.program_text(small), "ast": small}
                 extra = {"search": search}
             else:
-                def fails(p, sym=sym):
-                    return check_map(p)[0] == sym
+                explained = detail.endswith("objective]")
+                if explained and (sym, "explained") in crashed:
+                    acc.violation(sym, {"kind": "map", "cause": "sum-of-marginals objective"})
+                    continue
+
+                def fails(p, sym=sym, explained=explained):
+                    r = check_map(p)
+                    return r[0] == sym and r[1].endswith("objective]") == explained
 
                 small = map_program(progcheck.minimise(map_program(prog), fails, limit=120, strong=True))
                 s2, d2, _ = check_map(small)
                 case = {"kind": "map", "program": program_text(small), "ast": small}
                 extra = None
+                if explained:
+                    crashed.add((sym, "explained"))
+                    case, extra = {"kind": "map", "cause": "sum-of-marginals objective"}, case
             if sym.startswith("crash:"):
                 case, extra = {"site": sym}, dict(case, **(extra or {}))
             acc.violation(sym, case, extra=extra, expected="an optimal strategy with its expected utility / probability",
